@@ -238,6 +238,21 @@ pub fn record_c17(a: &Args) -> usize {
                     ":\u{FF21}1000302FFFB\r\n".as_bytes().to_vec(),
                     b":01000302fffb\r\n".to_vec(),
                     b":0100\x000302FFFB\r\n".to_vec(),
+                    // well-formed hex text with more than 255 data pairs whose length field is the count modulo 256 and whose
+                    // checksum is right: no frame can hold it, so it cannot be decoded
+                    {
+                        let count = 300usize;
+                        let mut payload = vec![(count % 256) as u8, (me >> 8) as u8, me as u8, 0x00];
+                        payload.extend((0..count).map(|i| (i * 3) as u8));
+                        let sum = payload.iter().fold(0u8, |a, &b| a.wrapping_add(b));
+                        payload.push(0u8.wrapping_sub(sum));
+                        let mut t = vec![b':'];
+                        for b in &payload {
+                            t.extend_from_slice(format!("{:02X}", b).as_bytes());
+                        }
+                        t.extend_from_slice(b"\r\n");
+                        t
+                    },
                 ];
                 for line in inject {
                     odk_st.borrow_mut().rx.extend(line);
